@@ -411,18 +411,18 @@ func init() {
 }
 
 func init() {
-	vf.Register(vf.Sub[Case]{Name: "shared-subformulas", Quick: 20000, Thorough: 300000, Gen: genShared, Check: check, Floor: 0.4, Journal: true,
+	vf.Register(vf.Sub[Case]{Name: "shared-subformulas", Quick: 20000, Thorough: 100000, Gen: genShared, Check: check, Floor: 0.4, Journal: true,
 		Classes: map[string]float64{"shares-an-object": 0.3},
 		Rule:    "formula DAGs: a sub-formula object built once is used at several places (a fifth of the positions reuse an earlier sub-formula, often as first operand of a disjunction or premise of an implication), the way callers build rule sets from shared pieces; same oracle; non-trivial as above"})
 }
 
 func init() {
 	vf.Register(
-		vf.Sub[Case]{Name: "trees", Quick: 30000, Thorough: 400000, Gen: genCase(true), Check: check, Floor: 0.4,
+		vf.Sub[Case]{Name: "trees", Quick: 30000, Thorough: 120000, Gen: genCase(true), Check: check, Floor: 0.4,
 			Rule: "formula trees of depth <=5 over <=9 names: variables, constants, not, n-ary and/or with 0..4 children, implies, eq, xor, exactly-one groups of 1..9 distinct names (groups of >4 names only at positive polarity in this sub-check); oracle = own evaluator over all assignments; nil <=> unsatisfiable, returned assignment completed in every way on omitted names satisfies the formula; non-trivial = a conjunction nested under a disjunction (auxiliary variable) or an exactly-one group"},
 	)
 	vf.Register(
-		vf.Sub[Case]{Name: "trees-any-polarity", Quick: 20000, Thorough: 300000, Gen: genCase(false), Check: check, Floor: 0.4,
+		vf.Sub[Case]{Name: "trees-any-polarity", Quick: 20000, Thorough: 100000, Gen: genCase(false), Check: check, Floor: 0.4,
 			Rule: "same trees with exactly-one groups of any size at any polarity; a failure on a formula that holds a group of >4 names at a non-positive polarity is tagged [big-unique-negated] (the signature of the finding c11-negated-big-unique, fixed since: the tag suppresses nothing)"},
 	)
 }
